@@ -189,6 +189,10 @@ def mixed_alignment(eng, res, rnd, tier):
             plan, tree2 = defs.hoist(tree, rnd, p=0.7, top_align=rnd.random() < 0.5, mixed=True)
             if s1_mixed.is_mixed(plan):
                 break
+        if rnd.random() < 0.3:
+            # directed: an aligned structure with a dynamically sized member, nested in a packed one at an odd offset
+            plan, tree2 = s1_mixed.directed_dynamic(rnd, g)
+            res.feat("mixed-align:directed (dynamic member inside an aligned structure nested in a packed one)")
         if not s1_mixed.is_mixed(plan):
             res.feat("mixed-align:plan-uniform (not run)")
             continue
